@@ -318,6 +318,26 @@ def parse_instr(line):
         c.expect(',')
         pt, p = parse_tv(c)
         return I(ty, (v, p), _align())
+    if op == 'atomicrmw':
+        # atomicrmw [volatile] <operation> <ty>* <pointer>, <ty> <value> [syncscope] <ordering>
+        c.eat('volatile')
+        kind = c.next()
+        pt, p = parse_tv(c)
+        c.expect(',')
+        ty, v = parse_tv(c)
+        return I(ty, (p, v), kind)
+    if op == 'cmpxchg':
+        # cmpxchg [weak] [volatile] <ty>* <pointer>, <ty> <cmp>, <ty> <new> <ordering> <ordering>  -> { ty, i1 }
+        c.eat('weak')
+        c.eat('volatile')
+        pt, p = parse_tv(c)
+        c.expect(',')
+        ty, cmpv = parse_tv(c)
+        c.expect(',')
+        ty2, newv = parse_tv(c)
+        return I(('lit', (ty, ('i', 1)), False), (p, cmpv, newv), ty)
+    if op == 'fence':
+        return I(('void',), ())
     if op == 'getelementptr':
         c.eat('inbounds')
         bt = parse_type(c)
